@@ -26,12 +26,21 @@ var stateCalls = map[string]bool{
 	"storedBeforeStart": true, "setStoredBeforeStart": true, "WrapError": true, "ValidateMessage": true, "Running": true, "String": true,
 }
 
+type lockReturn struct {
+	fn       string
+	line     int
+	released bool
+}
+
 type lockWalker struct {
-	fn      string
-	recv    string          // name of the party variable (p)
-	hooks   map[string]bool // local closures that unlock
-	sites   []lockSite
-	defered bool
+	returns     []lockReturn
+	everLocked  bool
+	deferUnlock bool
+	fn          string
+	recv        string          // name of the party variable (p)
+	hooks       map[string]bool // local closures that unlock
+	sites       []lockSite
+	defered     bool
 }
 
 // accesses inside an expression (in source order), closures skipped
@@ -49,6 +58,7 @@ func (w *lockWalker) expr(e ast.Node, locked bool) bool {
 					switch {
 					case se.Sel.Name == "lock":
 						locked = true
+						w.everLocked = true
 					case se.Sel.Name == "unlock":
 						locked = false
 					case stateCalls[se.Sel.Name]:
@@ -93,9 +103,16 @@ func (w *lockWalker) stmt(s ast.Stmt, locked bool) (bool, bool) {
 		for _, r := range x.Results {
 			locked = w.expr(r, locked)
 		}
+		// a function that unlocks by hand must have released the mutex on every return path once it has taken it
+		if w.everLocked && !w.deferUnlock {
+			w.returns = append(w.returns, lockReturn{w.fn, fset.Position(x.Pos()).Line, !locked})
+		}
 		return locked, true
 	case *ast.DeferStmt:
 		// defer p.unlock(): the lock is held until the function returns; other deferred calls are not state accesses of interest
+		if strings.Contains(nodeStr(x.Call), w.recv+" unlock") {
+			w.deferUnlock = true
+		}
 		return locked, false
 	case *ast.AssignStmt:
 		// r := func(...) {... p.unlock() ...}
@@ -161,7 +178,7 @@ func (w *lockWalker) stmt(s ast.Stmt, locked bool) (bool, bool) {
 func genLocks() {
 	var sb strings.Builder
 	sb.WriteString("(* generated by gotables from /repo/tss/party.go and */local_party.go: party-state accesses of the entry points and whether the party mutex is held. Do not edit. *)\nFrom Coq Require Import List String.\nFrom TSS Require Import Model.Locking.\nImport ListNotations.\nOpen Scope string_scope.\n\nDefinition lock_sites : list lock_site := [\n")
-	var lines []string
+	var lines, retLines []string
 	pk := pkgs["tss"]
 	if pk == nil || pk.files["party.go"] == nil {
 		unrecognised("tss/party.go not found")
@@ -190,9 +207,14 @@ func genLocks() {
 			for _, s := range w.sites {
 				lines = append(lines, fmt.Sprintf("  mkLockSite %q %q %v", s.fn, s.access, s.locked))
 			}
+			for _, rt := range w.returns {
+				retLines = append(retLines, fmt.Sprintf("  (%q, %v)", rt.fn, rt.released))
+			}
 		}
 	}
 	sb.WriteString(strings.Join(lines, ";\n"))
+	sb.WriteString("\n].\n\n(* return statements of the entry points that unlock by hand (no deferred unlock), reached with the mutex taken: true = released there *)\nDefinition lock_returns : list (string * bool) := [\n")
+	sb.WriteString(strings.Join(retLines, ";\n"))
 	sb.WriteString("\n].\n\n(* how each LocalParty.UpdateFromBytes wraps a parse error: true = through tss.WrapErrorLocked *)\nDefinition parse_error_wraps : list (string * bool) := [\n")
 	var pw []string
 	for _, dir := range protocolDirs {
